@@ -13,10 +13,13 @@ Definition Nprime (n : N) : Prop :=
 Definition primes_upto (l : list N) (m : N) : Prop :=
   StronglySorted N.lt l /\ forall p, In p l <-> (Nprime p /\ p <= m).
 
-(* the vector holds all primes up to its last element, at least the ten initial ones *)
+(* the vector holds all primes up to its last element, at least the ten initial ones;
+   its entries are 32-bit values (std::vector<unsigned>): without this bound
+   `_primes.back() + 1` wraps and _extend re-sieves from a small start *)
 Definition vec_inv (v : vec) : Prop :=
   firstn 10 (live v) = first10 /\
-  primes_upto (live v) (vec_back v).
+  primes_upto (live v) (vec_back v) /\
+  vec_back v < W32.
 
 Definition LIMIT_MAX : N := 2147483648.      (* 2^31 *)
 Definition SIZE_MAX : N := 32768.            (* kilobytes: segment <= 2^28 bits *)
